@@ -382,7 +382,9 @@ def raw_mutex_ops(f):
             if len(pt) > 1 and strip_cvref(pt[1]) == "std::adopt_lock_t":
                 out.append((st, "adopt_lock constructor (adopts a lock taken by hand)"))
         elif st["k"] == "CallExpr" and callee_fq(st) in ("std::lock", "std::try_lock"):
-            out.append((st, "std::lock/try_lock on bare mutexes"))
+            # on deferred lock OBJECTS (`std::lock(wlock, rlock)`) the acquisitions stay owned by RAII objects
+            if not all(lock_class(strip_cvref((f.s(a) or {}).get("t", ""))) for a in st["args"]):
+                out.append((st, "std::lock/try_lock on bare mutexes"))
     return out
 
 
